@@ -38,6 +38,7 @@ THEOREMS = [
     "PyTrie.Props.Free.op_is_executor_op",
     "PyTrie.Props.Free.run_is_executor_run",
     "PyTrie.Props.Free.run_get",
+    "PyTrie.Props.Free.history_lockstep",
 ]
 RULE = ("histories of set/setitem/set-to-empty/delete/delitem and squash_changes batches (committed and aborted) "
         "over crafted and random prefix-sharing key universes (empty key, prefixes, extensions, mid-path "
